@@ -729,6 +729,57 @@ fn unify(batches: Vec<RecordBatch>) -> Result<Vec<RecordBatch>> {
 /// survive as a zero-row batch, or the merge stage cannot even register the
 /// partial table (Q20-shaped TopN over a selective filter hits this).
 pub fn decode_ipc(bytes: &[u8]) -> Result<Vec<RecordBatch>> {
+    // The payload crossed a network: check that every message's declared
+    // sizes fit in what actually arrived BEFORE the Arrow reader acts on them
+    // (a corrupt body length otherwise turns into a terabyte allocation and
+    // takes the node down), and turn any decoder panic on corrupt metadata
+    // into an error — one bad peer answer must fail one query, not the process.
+    check_ipc_framing(bytes)?;
+    match std::panic::catch_unwind(|| decode_ipc_checked(bytes)) {
+        Ok(r) => r,
+        Err(_) => Err(QueryError::Execution(
+            "fragment result is corrupt: the Arrow IPC decoder rejected it".into(),
+        )),
+    }
+}
+
+/// Walk the stream framing: `[0xFFFFFFFF] <metadata length> <metadata> <body>`
+/// repeated, ended by a zero metadata length.
+fn check_ipc_framing(bytes: &[u8]) -> Result<()> {
+    let corrupt = |what: &str| QueryError::Execution(format!("fragment result is corrupt: {what}"));
+    let mut pos = 0usize;
+    while pos + 4 <= bytes.len() {
+        let mut word = [0u8; 4];
+        word.copy_from_slice(&bytes[pos..pos + 4]);
+        pos += 4;
+        if word == [0xFF; 4] {
+            if pos + 4 > bytes.len() {
+                return Ok(()); // cut inside the prefix: the reader reports it
+            }
+            word.copy_from_slice(&bytes[pos..pos + 4]);
+            pos += 4;
+        }
+        let meta_len = i32::from_le_bytes(word);
+        if meta_len == 0 {
+            return Ok(()); // end-of-stream marker
+        }
+        if meta_len < 0 || meta_len as usize > bytes.len() - pos {
+            return Err(corrupt("a message's metadata length exceeds the payload"));
+        }
+        let meta = &bytes[pos..pos + meta_len as usize];
+        pos += meta_len as usize;
+        let msg = arrow::ipc::root_as_message(meta)
+            .map_err(|_| corrupt("a message's metadata is not a valid Arrow IPC message"))?;
+        let body = msg.bodyLength();
+        if body < 0 || body as u64 > (bytes.len() - pos) as u64 {
+            return Err(corrupt("a message's body length exceeds the payload"));
+        }
+        pos += body as usize;
+    }
+    Ok(())
+}
+
+fn decode_ipc_checked(bytes: &[u8]) -> Result<Vec<RecordBatch>> {
     let mut reader = arrow::ipc::reader::StreamReader::try_new(std::io::Cursor::new(bytes), None)?;
     let schema = reader.schema();
     let mut out = Vec::new();
